@@ -507,7 +507,95 @@ def case_flat2(case):
     return out
 
 
+def case_popU(case):
+    """Populate into a destination whose rank is declared uncompressed (never an
+    inserting populate): destination-side rows address the element's index in the
+    destination at the time of the access."""
+    zc, ac = case
+    out = []
+    n = len(zc)
+    regs = [("K", "iter"), ("K", "populate_1"), ("K", "populate_read_0"), ("K", "populate_write_0")]
+
+    def nest():
+        Z = Tensor.fromFiber(["K"], mkrow(zc, 3), shape=[n])
+        Z.setFormat("K", "U")
+        a = mkrow(ac, 2)
+        a.getRankAttrs().setId("K")
+        for k, (zr, av) in Z.getRoot() << a:
+            zr += av
+    f = feats_cells(zc, ac) | {"destination_uncompressed"}
+    base = run_all("popU", nest, regs, f, out)
+    if base is None:
+        return out
+    A = present(ac)
+    cur = list(stored(zc))
+    reads, writes = [], []
+    import bisect
+    for k in A:
+        i = bisect.bisect_left(cur, k)
+        if i < len(cur) and cur[i] == k:
+            reads.append(((k,), i))
+        else:
+            cur.insert(i, k)
+        writes.append(((k,), i))
+    check_trace("popU", regs[0], base.get(regs[0], []), ["K"], [((k,), i) for i, k in enumerate(A)], f, out, True)
+    check_trace("popU", regs[1], base.get(regs[1], []), ["K"], [((k,), rawpos(ac, k)) for k in A], f, out, False,
+                list(range(len(A))))
+    check_trace("popU", regs[2], base.get(regs[2], []), ["K"], reads, f, out, False)
+    check_trace("popU", regs[3], base.get(regs[3], []), ["K"], writes, f, out, False)
+    return out
+
+
+def case_projpop2(case):
+    """The HiFiber idiom for a projected populate, executed once per row of an
+    outer loop: (z_n << a_m.project(tick=True, rank_id="N")).iterOccupancy(tick=False).
+    Every execution of the inner loop must leave its rows in the source-side trace."""
+    aspec, = case
+    out = []
+    regs = [("J", "iter"), ("N", "populate_1"), ("N", "populate_write_0"), ("N", "populate_read_0")]
+
+    def nest():
+        A = Tensor.fromFiber(["J", "M"], mk2(aspec), shape=[2, 3])
+        Z = Tensor(rank_ids=["J", "N"], shape=[2, 3])
+        for j, (z_n, a_m) in Z.getRoot() << A.getRoot():
+            for _, (z_ref, a_val) in (z_n << a_m.project(tick=True, rank_id="N")).iterOccupancy(tick=False):
+                z_ref += a_val
+    f = feats_cells(*[c for c in aspec if c is not None]) | {"projected_populate"}
+    base = run_all("projpop2", nest, regs, f, out)
+    if base is None:
+        return out
+    live = live_rows(aspec)
+    check_trace("projpop2", regs[0], base.get(regs[0], []), ["J"], [((j,), i) for i, j in enumerate(live)], f, out, True)
+    exp, dm = [], []
+    for j in live:
+        for i, m in enumerate(present(aspec[j])):
+            exp.append(((j, m), rawpos(aspec[j], m)))
+            dm.append(i)
+    rows = base.get(regs[1], [])
+    ranks = rows[0][2:4] if rows and len(rows[0]) == 5 else ["J", "M"]
+    check_trace("projpop2", regs[1], rows, ranks, exp, f, out, False, dm)
+    for key in regs[2:]:
+        rows = base.get(key, [])
+        check_trace("projpop2", key, rows, rows[0][2:4] if rows and len(rows[0]) == 5 else ["J", "M"], None, f, out, False)
+        # completeness in the only sense the property gives for destination-side traces of an appending populate:
+        # one write row per loop body
+        if key[1] == "populate_write_0" and rows and len(rows) - 1 != len(exp):
+            out.append(("trace-populate_write", "row-count", set(f) | {"nest:projpop2"}, len(exp), len(rows) - 1))
+    return out
+
+
 # ---------------------------------------------------------------------------
+
+def shard_popU(acc, shard, nshards, params):
+    u = f1(params)
+    core.drive(acc, "popU", case_popU, ((z, a) for z in u for a in u), shard, nshards,
+               family="populate-into-uncompressed-destination[N=%d]" % params)
+
+
+def shard_projpop2(acc, shard, nshards, params):
+    core.drive(acc, "projpop2", case_projpop2, ((a,) for a in t2(2, 3)), shard, nshards,
+               family="projected-populate-per-row[A in T2(2,3)]")
+
 
 def shard_popins(acc, shard, nshards, params):
     u = f1(params)
@@ -563,7 +651,8 @@ def shard_project(acc, shard, nshards, params):
 
 
 CASES = {"iter1": case_iter1, "and1": case_and1, "nest2": case_nest2, "matvec": case_matvec,
-         "matmul3": case_matmul3, "project": case_project, "popins": case_popins, "flat2": case_flat2}
+         "matmul3": case_matmul3, "project": case_project, "popins": case_popins, "flat2": case_flat2,
+         "popU": case_popU, "projpop2": case_projpop2}
 
 
 def run(ctx):
@@ -591,6 +680,12 @@ def run(ctx):
     if sel("popins"):
         ctx.shards(shard_popins, 3 if q else 4)
         ctx.bounds["popins"] = "z, a in F1(%d): populate into a non-empty destination (insert / append / overwrite)" % (3 if q else 4)
+    if sel("popU"):
+        ctx.shards(shard_popU, 3)
+        ctx.bounds["popU"] = "z, a in F1(3), destination rank declared uncompressed: destination-side rows checked against the index at access time"
+    if sel("projpop2"):
+        ctx.shards(shard_projpop2, None)
+        ctx.bounds["projpop2"] = "A in T2(2,3): projected populate (tick=True idiom) executed once per row of an outer populate"
     if sel("flat2"):
         ctx.shards(shard_flat2, None)
         ctx.bounds["flat2"] = "upper rank with tuple coordinates over {0,1}^2 (shape associated), rows in F1(2) or absent"
